@@ -1170,6 +1170,7 @@ def corpus_chunks():
         ('{"&q": a}', "=a", "dot", d), ('{"a\\\\.b": a}', "=a", "dot", d), ('{"": a}', "=a", "slash", d),   # F-C07-2
         ("a", "=a", "dot", d),                                             # F-C07-3
         ("[&x a, &x b, *x]", "=b", "dot", a),                              # F-C07-4
+        ("{a: {k: &w b}, z: *w}", "<c", "dot", (True, True, False, False, False, False)),   # C07_alias_excluded_refuted
         ("[!!set {x, y}, x]", "=x", "dot", d),                             # fixed d9ff2cf
         ("{a: &x {k: v}, b: *x}", "=v", "dot", d), ("{a: &x {k: v}, b: *x}", "=v", "slash", a),   # fixed da0a3a5
         ("{x: {&k a: 1}, y: {*k : 2}}", "=a", "dot", (True, True, False, False, False, False)),   # fixed 0862173
